@@ -127,6 +127,12 @@ add("tuple-path-arguments-crossed","C17","slice_validator.go","\t\t\tvalidator :
 add("invalid-reference-only-warned","C03","spec.go","\t\t\tres.AddErrors(invalidRefMsg(r.String()))","\t\t\tres.AddWarnings(invalidRefMsg(r.String()))","SPEC-PRED:(*SpecValidator).validateReferencesValid:invalidRefMsg:as-error", quick=False)
 add("unique-items-looks-at-one-element","C14","values.go","\t\tunique = append(unique, v)\n","\t\tunique = append(unique, v)\n\t\tbreak\n","DEAD-TAIL:UniqueItems:loop-runs-once", quick=False)
 add("visited-pair-of-one-container","C14","values.go","\t\tpair := [2]uintptr{av.Pointer(), bv.Pointer()}\n\t\tif _, again := visiting[pair]; again {\n\t\t\treturn true\n\t\t}\n\t\tvisiting[pair] = struct{}{}\n\t\tfor i := 0; i < av.Len(); i++ {","\t\tpair := [2]uintptr{av.Pointer(), av.Pointer()}\n\t\tif _, again := visiting[pair]; again {\n\t\t\treturn true\n\t\t}\n\t\tvisiting[pair] = struct{}{}\n\t\tfor i := 0; i < av.Len(); i++ {","DATA-WALK:valuesEqualVisiting:visited", quick=False)
+add("array-judged-by-its-first-element","C16","validator.go","\t\tif err := itemsValidator.Validate(i, ele.Interface()); err != nil {\n\t\t\tif err.HasErrors() {\n\t\t\t\treturn err\n\t\t\t}","\t\tif err := itemsValidator.Validate(i, ele.Interface()); err != nil {\n\t\t\t{\n\t\t\t\treturn err\n\t\t\t}","ELEMENTS-ALL:(*basicSliceValidator).Validate:every-element", quick=False)
+add("anonymous-operations-counted","C03","spec.go","\t\tif v != \"\" {\n\t\t\tknown[v]++\n\t\t}","\t\tknown[v]++","SPEC-PRED:validateDuplicateOperationIDs:only-named", quick=False)
+add("setter-writes-the-neighbour","C10","options.go","\tdefaultOpts.ContinueOnErrors = c","\tdefaultOpts.StrictPathParamUniqueness = c","SETTER:SetContinueOnErrors:field", quick=False)
+add("folding-when-case-sensitive","C14","values.go","\tif caseSensitive {\n\t\treturn nil\n\t}\n","","PURE:EnumCase:fold-only-insensitive", quick=False)
+add("invalid-bytes-not-compared","C14","values.go","\t\t\tif s[:ssize] != t[:tsize] {\n\t\t\t\treturn false\n\t\t\t}\n","","PURE:EnumCase:fold-valid-runes", quick=False)
+add("map-arm-answers-at-once","C14","values.go","\t\tif av.Type().Key() != bv.Type().Key() || av.IsNil() != bv.IsNil() || av.Len() != bv.Len() {\n\t\t\treturn false\n\t\t}","\t\t{\n\t\t\treturn false\n\t\t}","DATA-WALK:valuesEqualVisiting:visited:members", quick=False)
 json.dump(C, open('/verif/tables/controls.json','w'), indent=1)
 import os
 for c in C:
